@@ -12,6 +12,10 @@
 (*          different type, not a spelling), mode, bc, expr (tree), coll, el] *)
 (*          ctx2: the sweep has two more variables u, w read from_context;   *)
 (*          vorder: the order in which the variables mapping lists them      *)
+(*          vname: the name the author gave the swept variable ("t", or a    *)
+(*          name that collides with a field of the framework's own metadata, *)
+(*          "expr"); renaming it is semantic (it names the published         *)
+(*          <vname>_values key)                                              *)
 (* Meaning(cfg) forgets order, spelling, layout and the operand order of   *)
 (* + and * in the sweep expression.  Cosmetic actions must keep Meaning,   *)
 (* semantic actions must change it (C04 / C05); every edge is emitted and  *)
@@ -25,7 +29,7 @@ CONSTANTS Seeds,        \* set of seed configurations
 VARIABLES cfg, last, steps, base
 vars == <<cfg, last, steps, base>>
 
-NoSweep == [on |-> FALSE, vals |-> <<>>, ints |-> FALSE, ctx2 |-> FALSE, vorder |-> FALSE, mode |-> "", bc |-> FALSE, expr |-> <<>>, coll |-> "", el |-> ""]
+NoSweep == [on |-> FALSE, vname |-> "", vals |-> <<>>, ints |-> FALSE, ctx2 |-> FALSE, vorder |-> FALSE, mode |-> "", bc |-> FALSE, expr |-> <<>>, coll |-> "", el |-> ""]
 Spellings == 0..3
 
 (******************************* meaning **********************************)
@@ -93,12 +97,13 @@ SweepField(f) == \E i \in 1..Len(cfg) : cfg[i].sweep.on /\
                          /\ SetNode(i, [cfg[i] EXCEPT !.sweep.expr[1] = IF @ = "+" THEN "*" ELSE "+"])
       [] f = "opinner" -> /\ Len(cfg[i].sweep.expr) = 3 /\ Len(cfg[i].sweep.expr[2]) = 3 /\ cfg[i].sweep.expr[2][1] \in {"+", "*"}
                           /\ SetNode(i, [cfg[i] EXCEPT !.sweep.expr[2][1] = IF @ = "+" THEN "*" ELSE "+"])
+      [] f = "vname" -> SetNode(i, [cfg[i] EXCEPT !.sweep.vname = IF @ = "t" THEN "expr" ELSE "t"])
       [] f = "el"    -> LET e2 == IF cfg[i].proc = "FloatValueDataSource" THEN "FloatValueDataSourceWithDefault" ELSE "FloatValueDataSource"
                         IN SetNode(i, [cfg[i] EXCEPT !.sweep.el = e2, !.proc = e2])     \* the wrapped processor
 SweepName(f) == CASE f = "vals" -> "SetSweep_vals" [] f = "val1" -> "SetSweep_val1" [] f = "mode" -> "SetSweep_mode"
                    [] f = "bc" -> "SetSweep_bc" [] f = "const" -> "SetSweep_const" [] f = "noncomm" -> "SetSweep_noncomm"
-                   [] f = "el" -> "SetSweep_el" [] f = "oproot" -> "SetSweep_oproot" [] f = "inttype" -> "SetSweep_inttype" [] f = "opinner" -> "SetSweep_opinner"
-SetSweep == \E f \in {"vals", "val1", "mode", "bc", "const", "noncomm", "el", "oproot", "opinner", "inttype"} : SweepField(f) /\ last' = SweepName(f)
+                   [] f = "el" -> "SetSweep_el" [] f = "oproot" -> "SetSweep_oproot" [] f = "inttype" -> "SetSweep_inttype" [] f = "opinner" -> "SetSweep_opinner" [] f = "vname" -> "SetSweep_vname"
+SetSweep == \E f \in {"vals", "val1", "mode", "bc", "const", "noncomm", "el", "oproot", "opinner", "inttype", "vname"} : SweepField(f) /\ last' = SweepName(f)
 Semantic == SetProcessor \/ SetParam \/ SetSubParam \/ DropNode \/ DupNode \/ SwapNodes \/ SetSweep
 
 Init == cfg \in Seeds /\ last = "" /\ steps = 0 /\ base = cfg
